@@ -138,7 +138,7 @@ FINDINGS = {
     "riscv-subword-values-not-normalised": {
         "targets": RV, "deny": ["binop:[+*-]:[iu]8", "binop:[+*-]:[iu]16", "binop:<<:[iu]8", "binop:<<:[iu]16",
                                 "cast:[iu]32:[iu]8", "cast:[iu]32:[iu]16", "cast:[iu]16:[iu]8", "cast:ptr:[iu]8",
-                                "cast:ptr:[iu]16"]},
+                                "cast:ptr:[iu]16", "cast:i8:u8", "cast:u8:i8", "cast:i16:u16", "cast:u16:i16"]},
     "rvc-shift-constant-lhs-operands-swapped": {
         "targets": ["riscv:rvc"],
         "opconst": lambda op, ty, v, side: ty == "i32" and op in ("<<", ">>") and side == "lhs" and v < 16},
@@ -857,7 +857,7 @@ def run_module(tgt, mon, make_module, argvecs_of, levels, case, pressure=0, drop
             continue
         mon.bump(mon.obs["modules_built"], tgt.name)
         mon.bump(mon.obs["levels"], level)
-        mon.bump(mon.obs["pressure"], str(pressure))
+        mon.bump(mon.obs["pressure"], str(pressure() if callable(pressure) else pressure))
         try:
             got = (exec_x86 if tgt.x86 else exec_rv)(tgt, linked, m, calls, lambda c: refs[c["id"]].steps)
         except Exception as e:  # noqa  harness trouble, never a verdict
@@ -973,7 +973,7 @@ def run_irgen(spec, mon, tgt):
                 "replay_spec": {"part": "irgen", "target": tgt.name, "start": idx, "count": 1, "tier": spec["tier"],
                                 "seed": spec["seed"], "avoid": spec["avoid"]}}
         before = mon.evals
-        run_module(tgt, mon, make, argvecs, levels_for(spec, idx), case, pressure=state.get("pressure", 0))
+        run_module(tgt, mon, make, argvecs, levels_for(spec, idx), case, pressure=lambda: state.get("pressure", 0))
         if state.get("info") and mon.evals > before:
             for t in state["info"]["tags"]:
                 mon.bump(mon.obs["tags"], t)
